@@ -582,7 +582,7 @@ DEPENDS = {
     'UnitQuaternion.isvalid': ['m_UQ_isvalid'], 'SO3.isvalid': ['m_SO3_isvalid'], 'SE3.isvalid': ['m_SE3_isvalid'],
     'SO2.isvalid': ['m_SO2_isvalid'], 'SE2.isvalid': ['m_SE2_isvalid'],
 }
-# normalised semantic summaries the hand models were written against (generated once from the tree the models mirror, then fixed)
+# normalised semantic summaries the hand models were written against (generated from the tree the models mirror, then fixed)
 EXPECTED = {'isR': {'hard': {'defaults': {'tol': 100}, 'formula': ['and', ['Lt', 'expr', 'tol*_eps'], ['Gt', 'expr', 'const:0']], 'callees': []},
          'fine': ['and', ['src', 'np.linalg.norm(R @ R.T - np.eye(R.shape[0])) < tol * _eps'], ['src', 'np.linalg.det(R) > 0']],
          'layout': ['return']},
@@ -730,7 +730,7 @@ EXPECTED = {'isR': {'hard': {'defaults': {'tol': 100}, 'formula': ['and', ['Lt',
                                                     ['or', ['Eq', 'expr', 'expr'],
                                                      ['and', ['call', 'argcheck.isnumberlist', []], ['Eq', 'expr', 'const:1'],
                                                       ['Eq', 'expr', 'expr']]]]],
-                                                  ['or', ['call', 'isinstance', []], ['In', 'expr', 'expr']]]]],
+                                                  ['or', ['and', ['call', 'isinstance', []], ['Eq', 'expr', 'expr']], ['In', 'expr', 'expr']]]]],
                                     'callees': [['argcheck.isnumberlist', [], []]]},
                            'fine': ['or', ['src', 'arg is None'],
                                     ['ite', ['src', 'isinstance(arg, np.ndarray)'], ['src', '_l0 is not None'],
@@ -742,7 +742,8 @@ EXPECTED = {'isR': {'hard': {'defaults': {'tol': 100}, 'formula': ['and', ['Lt',
                                         ['or', ['src', 'type(arg[0]) == type(self)'],
                                          ['and', ['src', 'argcheck.isnumberlist(arg)'], ['src', 'len(self.shape) == 1'],
                                           ['src', 'len(arg) == self.shape[0]']]]]],
-                                      ['or', ['src', 'isinstance(arg, self.__class__)'], ['src', 'arg.__class__ in convertfrom']]]]],
+                                      ['or', ['and', ['src', 'isinstance(arg, self.__class__)'], ['src', 'arg.shape == self.shape']],
+                                       ['src', 'arg.__class__ in convertfrom']]]]],
                            'layout': [['if', ['Assign'],
                                        [['if', ['Assign', ['if', ['Assign'], ['return']]],
                                          [['if',
@@ -753,27 +754,27 @@ EXPECTED = {'isR': {'hard': {'defaults': {'tol': 100}, 'formula': ['and', ['Lt',
                                       'return']},
  'SMUserList.__setitem__': {'hard': {'defaults': {},
                                      'formula': ['ite', ['not', ['Eq', 'expr', 'expr']], ['raise'],
-                                                 ['ite', ['Gt', 'expr', 'const:1'], ['raise'], ['none']]],
+                                                 ['ite', ['NotEq', 'expr', 'const:1'], ['raise'], ['none']]],
                                      'callees': []},
                             'fine': ['ite', ['not', ['src', 'type(self) == type(value)']], ['raise'],
-                                     ['ite', ['src', 'len(value) > 1'], ['raise'], ['none']]],
+                                     ['ite', ['src', 'len(value) != 1'], ['raise'], ['none']]],
                             'layout': [['if', ['raise'], []], ['if', ['raise'], []], 'Assign']},
  'SMUserList.append': {'hard': {'defaults': {},
                                 'formula': ['ite', ['not', ['Eq', 'expr', 'expr']], ['raise'],
-                                            ['ite', ['Gt', 'expr', 'const:1'], ['raise'], ['none']]],
+                                            ['ite', ['NotEq', 'expr', 'const:1'], ['raise'], ['none']]],
                                 'callees': []},
                        'fine': ['ite', ['not', ['src', 'type(self) == type(item)']], ['raise'],
-                                ['ite', ['src', 'len(item) > 1'], ['raise'], ['none']]],
+                                ['ite', ['src', 'len(item) != 1'], ['raise'], ['none']]],
                        'layout': [['if', ['raise'], []], ['if', ['raise'], []], 'Expr']},
  'SMUserList.extend': {'hard': {'defaults': {}, 'formula': ['ite', ['not', ['Eq', 'expr', 'expr']], ['raise'], ['none']], 'callees': []},
                        'fine': ['ite', ['not', ['src', 'type(self) == type(iterable)']], ['raise'], ['none']],
                        'layout': [['if', ['raise'], []], 'Expr']},
  'SMUserList.insert': {'hard': {'defaults': {},
                                 'formula': ['ite', ['not', ['Eq', 'expr', 'expr']], ['raise'],
-                                            ['ite', ['Gt', 'expr', 'const:1'], ['raise'], ['none']]],
+                                            ['ite', ['NotEq', 'expr', 'const:1'], ['raise'], ['none']]],
                                 'callees': []},
                        'fine': ['ite', ['not', ['src', 'type(self) == type(item)']], ['raise'],
-                                ['ite', ['src', 'len(item) > 1'], ['raise'], ['none']]],
+                                ['ite', ['src', 'len(item) != 1'], ['raise'], ['none']]],
                        'layout': [['if', ['raise'], []], ['if', ['raise'], []], 'Expr']}}
 TOL = {}   # regenerated defaults, as floats (used by the samplers)
 ESCALATE = set()   # registrations whose function changed textually but not semantically (this run)
@@ -1355,8 +1356,6 @@ def same_data(a, b):
 
 def mut_key(r, act, o, n):
     R, O = OCLS[r].__name__, (OCLS[o].__name__ if o in OCLS else 'ndarray')
-    if o == r and n == 0 and act[0] in ('setitem', 'append', 'insert'):
-        return 'mut:empty-operand-stores-empty-list'
     if o == r and n == 1 and act[0] == 'setslice':
         return 'mut:setitem:slice-index-spreads-rows'
     return f"mut:{act[0]}:{R}-from-{O}:holds-nonmember"
@@ -1364,10 +1363,6 @@ def mut_key(r, act, o, n):
 
 def obj_key(r, o, n):
     R, O = OCLS[r].__name__, OCLS[o].__name__
-    if (r, o) in (('oSO3', 'oSE3'), ('oSO2', 'oSE2')):
-        return 'ctor:object-arg:subclass-instance-copied'
-    if (r, o) in (('oTw3', 'oSE3'), ('oTw2', 'oSE2')) and n != 1:
-        return 'ctor:object-arg:convert-of-multi-valued-holds-list'
     return f"ctor:object-arg:{R}-from-{O}:holds-nonmember"
 
 
